@@ -559,10 +559,17 @@ def write_task():
             cname = getattr(o.val.cls, '__name__', '?')
             tag = 'raise#%d[%s]' % (k, cname)
             n, last, anyf = shut_facts(st)
-            # DESIGN C17: failure => _shutdown(ignoreAbruptClose), exactly once, then the same exception leaves
-            api.oblige(st, tag + ':_shutdown-called-exactly-once', n == 1)
-            api.oblige(st, tag + ':_shutdown-argument-is-ignoreAbruptClose', same(st.ghost.get('shut_arg'), iac))
-            api.oblige(st, tag + ':connection-closed', same(st.heap.get((self_.oid, 'closed')), TRUE()))
+            if o.val.cls is TLSClosedConnectionError:
+                # property C17: after an orderly close "writes raise the closed-connection error and the session stays
+                # resumable": the refusal itself is no failure of the connection -- nothing is shut down or invalidated
+                # (the connection is closed already: entry value of `closed`); fixed in /repo (F47)
+                api.oblige(st, tag + ':the-refused-write-does-not-touch-the-session(no-_shutdown)', n == 0)
+                api.oblige(st, tag + ':connection-stays-closed', z3.And(c0, same(st.heap.get((self_.oid, 'closed')), _entry_closed(api))))
+            else:
+                # DESIGN C17: failure => _shutdown(ignoreAbruptClose), exactly once, then the same exception leaves
+                api.oblige(st, tag + ':_shutdown-called-exactly-once', n == 1)
+                api.oblige(st, tag + ':_shutdown-argument-is-ignoreAbruptClose', same(st.ghost.get('shut_arg'), iac))
+                api.oblige(st, tag + ':connection-closed', same(st.heap.get((self_.oid, 'closed')), TRUE()))
             if o.val.cls is TLSClosedConnectionError:
                 api.oblige(st, tag + ':only-when-closed-at-entry', c0)
                 api.oblige(st, tag + ':raised-before-any-send', gint(st, 'n__sendMsg').t == 0)
@@ -583,8 +590,8 @@ def write_task():
 
     m2task('writeAsync', ('C17', 'C01'), TRL + 'writeAsync', spec, check=check, setup=base_setup(closed_setup),
            doc='writeAsync: on a closed connection TLSClosedConnectionError is raised before any send is attempted; on an open '
-               'one exactly one _sendMsg(ApplicationData(bytearray(s)), randomizeFirstBlock=True); every exception leaves '
-               'after exactly one _shutdown(ignoreAbruptClose)')
+               'one exactly one _sendMsg(ApplicationData(bytearray(s)), randomizeFirstBlock=True); every OTHER exception leaves '
+               'after exactly one _shutdown(ignoreAbruptClose); the refusal on a closed connection leaves the session untouched')
 
 
 write_task()
